@@ -13,13 +13,20 @@ RULE = ("(a) pure cases: option strings composed from known flags, python-gapic-
         "version incl. v1p1beta1 / v2p3alpha x 1-3 target files incl. proto sub-packages one and two levels deep, services in "
         "sub-packages x dependency-only files incl. packages sharing a textual prefix x file names needing sanitising incl. "
         "k8s_min.proto / k8s.min.proto x option strings incl. unknown options with '=' in the value x template tree (default; ads-templates with unversioned / versioned packages, root files / sub-packages)) run through the real generator. "
+        "(c) emptiness filter: rendered texts (blank lines incl. tab / form feed / CR / FS-US, comments at any indentation, code lines, "
+        "docstrings whose lines start with '#', trailing-newline shapes) x file names (modules, __init__.py, py.typed and look-alikes) "
+        "through utils.empty, fix_whitespace and the real Generator._get_file. "
         "A case is one input tuple; distinct = distinct canonical JSON / request hash; non-trivial = at least one target file.")
 TRUSTED = [
     "Model/Files.v (Options.build, Naming.build, generate/API.build names, _render_template gating and iteration, _get_filename, "
     "dict de-duplication) and Model/Case.v: hand-written, tied by T0 (template lists of both trees, OPT_FLAGS, prefix, kwlist, the "
     "string literals of every modelled function pinned), T1 (response file names + supported_features) and T2 (direct calls)",
-    "not modelled: the emptiness filter of _get_file (which candidates render to no statements) — T1 only allows it to drop names "
-    "other than __init__.py / py.typed; sample files (samples/generated_samples/*) go through the oracle only; "
+    "Model/Empty.v (utils.empty, the drop rule of Generator._get_file, over Model/FixWs.v): hand-written, ASCII text (non-ASCII "
+    "blanks such as U+00A0 / U+0085 are outside the model; the oracle still runs on non-ASCII cases), tied by T0 (the one expression "
+    "of utils.empty, the test and the literals of _get_file, the function its content goes through) and T2 (props/c11_empty.py: "
+    "the real functions on generated texts; _get_file runs on a stand-in self whose template renders to the given text); WHICH "
+    "templates render to no statement for a given API is not modelled (T1 only allows names other than __init__.py / py.typed to "
+    "be dropped, the e2e oracle reports an emitted empty module); sample files (samples/generated_samples/*) go through the oracle only; "
     "service-YAML parsing (the two experimental flags are inputs of the model)",
     "harness/gv/props/c11.py reference(): reads packages, file names, services from the input descriptors; impl/c11fn.py; "
     "apigen + DescriptorPool as validity judge; jinja2.FileSystemLoader.list_templates = sorted relative paths (T0 extractor)",
@@ -900,6 +907,8 @@ def regen(ctx):
 
 def run(ctx):
     run_pure(ctx)
+    from gv.props import c11_empty
+    c11_empty.run_empty(ctx)
     cases = load_corpus()
     cases += [c for c in (make_case("C11-e2e", i) for i in range(ctx.n(14, 400))) if c]
     for k, d in enumerate(["eq", "prefixdep", "nested", "subsvc", "dotted"]):
@@ -936,6 +945,11 @@ def replay(ctx, rep):
         schecks = run_sequences(ctx, [{"sequence": c["sequence"], "tag": c.get("tag", "replay")}])
         failing, errors, nf = coq.eval_checks("c11seqr", IMPORTS, "", schecks)
         ctx.oblige("T2 replayed sequence: names from the reused Generator = model plan", not failing and not errors, "; ".join((failing + errors)[:6]))
+        return
+    if "empty_case" in c:
+        from gv.props import c11_empty
+        c11_empty.FIXED[:] = [c["empty_case"]]
+        c11_empty.run_empty(ctx)
         return
     if "request_b64" in c:
         case = {"request_b64": c["request_b64"], "params": c.get("params", []), "yaml": c.get("yaml"), "tag": c.get("tag", "replay")}
